@@ -52,7 +52,7 @@ theorem blank_noNl {blank : Str} (hb : ∀ c ∈ blank, isBlank c = true) : '\n'
 theorem supplierLine_noNl {indent : Str} {s : Supplier} (hi : ∀ c ∈ indent, isBlank c = true)
     (hw : wfSupplier indent s = true) : '\n' ∉ supplierLine indent s := by
   simp only [wfSupplier, Bool.and_eq_true, Bool.not_eq_true', bne_iff_ne, ne_eq] at hw
-  obtain ⟨⟨⟨_, hc⟩, hn⟩, _⟩ := hw
+  obtain ⟨⟨⟨⟨_, hc⟩, hn⟩, _⟩, _⟩ := hw
   simp only [supplierLine, List.mem_append, List.mem_cons, List.mem_replicate, not_or]
   exact ⟨⟨blank_noNl hi, fun e => hc e.symm, fun e => absurd e.2 (by decide)⟩, noNl_spec hn⟩
 
